@@ -1,0 +1,47 @@
+//go:build verif
+
+package api
+
+import "time"
+
+// The accessors in this file exist only in builds with the "verif" tag. A conformance harness uses
+// them to reach states of the authentication tables that otherwise need wall-clock time (a session
+// expires after five idle minutes) or cannot be observed from outside (the asynchronous reload of
+// the API key table after a configuration change).
+
+// VerifExpireSession moves the expiry of the session with the given cookie value into the past.
+// It reports whether such a session exists.
+func VerifExpireSession(value string) bool {
+	sessionsLock.Lock()
+	sess, ok := sessions[value]
+	sessionsLock.Unlock()
+	if !ok {
+		return false
+	}
+
+	sess.Lock()
+	defer sess.Unlock()
+	sess.validUntil = time.Now().Add(-time.Second)
+	return true
+}
+
+// VerifCleanSessions runs the periodic session cleaner once.
+func VerifCleanSessions() {
+	_ = cleanSessions(module.Ctx, nil)
+}
+
+// VerifHasSession reports whether a session with the given cookie value is registered.
+func VerifHasSession(value string) bool {
+	sessionsLock.Lock()
+	defer sessionsLock.Unlock()
+	_, ok := sessions[value]
+	return ok
+}
+
+// VerifHasAPIKey reports whether the given key is in the active API key table.
+func VerifHasAPIKey(key string) bool {
+	apiKeysLock.Lock()
+	defer apiKeysLock.Unlock()
+	_, ok := apiKeys[key]
+	return ok
+}
